@@ -369,6 +369,8 @@ struct World {
       if (n < 2) return pool[0];
       return pool[(first % n + 1 + k % (n - 1)) % n];
    }
+   Op last_op{};            // the most recent op other than AGAIN, and its index in the op table
+   int last_kind = -1;
    std::u8string spelling(unsigned a, unsigned b);
    Rec& record(const char* factory, Entity e, ipr::Category_code cat, bool generative);
    Rec& record_node(const char* factory, const ipr::Node& n, ipr::Category_code cat, bool generative = true)
